@@ -185,3 +185,32 @@ func vhC13FontDoc(pages int, structure, mode bool) {
 		vAssertI("C18.fontdoc.encoding_matches_writing_mode", fontsOK && modeOK)
 	}
 }
+
+// C18: "the glyph subsetter assigns each used glyph one stable code": the codes already written
+// into a content stream stay valid when the same font is then used in the other writing
+// direction (the horizontal and the vertical font object of a font are both written from one
+// subsetter).  Fake font, font library stubbed as in the font documents above.
+func VH_C18_codes_stable_across_directions() {
+	if !vInterp() {
+		return
+	}
+	vhC13Stubs()
+	fa := vhC13FakeFont(true)
+	buf := &bytes.Buffer{}
+	r := New(buf, 100, 100, &Options{Compress: false, SubsetFonts: vChoose(0, 1) == 1})
+	first := []canvasText.Direction{canvasText.LeftToRight, canvasText.TopToBottom}[vChoose(0, 1)]
+	second := canvasText.TopToBottom
+	if first == canvasText.TopToBottom {
+		second = canvasText.LeftToRight
+	}
+	r.w.StartTextObject()
+	r.w.SetFont(fa, 10, first)
+	c5 := r.w.pdf.fontSubset[fa].Get(5)
+	c3 := r.w.pdf.fontSubset[fa].Get(3)
+	r.w.SetFont(fa, 12, second)
+	d3 := r.w.pdf.fontSubset[fa].Get(3)
+	d5 := r.w.pdf.fontSubset[fa].Get(5)
+	d7 := r.w.pdf.fontSubset[fa].Get(7)
+	r.w.EndTextObject()
+	vAssertI("C18.codes.kept_when_the_font_is_used_in_the_other_direction", c3 == d3 && c5 == d5 && c3 != c5 && d7 != c3 && d7 != c5 && c3 != 0 && c5 != 0 && d7 != 0)
+}
